@@ -162,4 +162,9 @@ ILL_TYPED = [
 	'def f(k: int) -> int:\n\tn: int = 0b101\n\treturn n + 0o7',
 	'x: int = 1\nx.y.z',
 	'import a.b.c',
+	# imports whose candidate path cannot even be stat()ed as "missing": through a regular file, a symlink loop, a name longer than NAME_MAX
+	'from src.NOTES.dep import f\ndef g() -> int:\n\treturn f()',
+	'from src.selfloop import f\ndef g() -> int:\n\treturn f()',
+	'from src.' + 'm' * 300 + ' import f\ndef g() -> int:\n\treturn f()',
+	'from src.' + '\u65e5' * 90 + ' import f\ndef g() -> int:\n\treturn f()',
 ]
